@@ -156,6 +156,24 @@ func (rb *ResponseBuffer) WriteHeader(status int) {
 	if rb.wroteHeader {
 		return
 	}
+	if status >= 100 && status < 200 && status != http.StatusSwitchingProtocols {
+		// an interim response (103 Early Hints, ...) is sent on at once with
+		// the fields set so far; the final response is still to come and is
+		// the one the buffering decision is about
+		h := rb.ResponseWriterWrapper.Header()
+		var added []string
+		for field, val := range rb.header {
+			if _, ok := h[field]; !ok {
+				added = append(added, field)
+			}
+			h[field] = val
+		}
+		rb.ResponseWriterWrapper.WriteHeader(status)
+		for _, field := range added {
+			delete(h, field)
+		}
+		return
+	}
 	rb.wroteHeader = true
 
 	rb.status = status
